@@ -20,6 +20,7 @@ import YashModel.Proc.Ops
 import YashModel.Proc.PipelineMeasure
 import YashModel.Proc.Joint
 import YashModel.Proc.FdLemmas
+import YashModel.Proc.Order
 import YashModel.Proc.Spec
 namespace YashModel.Proc
 
@@ -488,6 +489,14 @@ theorem pipeline_terminates {c : PCfg} {s : PSys} (hv : c.Valid) (h : Hyg c s) :
       obtain ⟨i, t', hs⟩ := pipeline_no_deadlock hv h ht hd
       rw [hstuck i] at hs; simp at hs
 
+/-- ★ `prun_done`: the executable scheduler of the pipeline model (what the driver runs for the stages of a
+    flow pipeline), started on the pipeline `progs` with fuel ≥ `pmeas`, ends with EVERY stage ended,
+    whatever the choices — the driver's statuses are those of a complete run, never of a stuck one. -/
+theorem prun_done {c : PCfg} (hv : c.Valid) (progs : List SProg) (hne : progs ≠ []) (fuel : Nat)
+    (choices : List Nat) (hf : pmeas (mkPipeline progs) ≤ fuel) :
+    (prun c fuel choices (mkPipeline progs)).done = true :=
+  prun_done_of_hyg hv fuel choices _ (hyg_init c progs hne) hf
+
 /-- non-vacuity with the constants of the virtual system: `spew 4096 | st 7` ends with statuses 1 (EPIPE)
     and 7, `spew 3000 | cat | drain` with 0, 0, 0, under these schedules -/
 example :
@@ -674,5 +683,130 @@ example :
       · split at hfd
         · simp at hfd; subst hfd; simp [Res.isPipeEnd] at hpe
         · simp at hfd
+
+/-! ### from what the driver computes to what the property says -/
+
+/-- ★ `run_final`: the executable scheduler of the driver (`run`), started in any reachable state with fuel
+    ≥ `measure`, ends in a final state whatever the list of choices is (so the driver's "model run" is a
+    complete run of the model, not a truncated one). -/
+theorem run_final {spec : List (Nat × Result)} {reqs : List Req} {s : Sys} (h : Reachable spec reqs s)
+    (fuel : Nat) (choices : List Nat) (hf : measure s ≤ fuel) :
+    Reachable spec reqs (run fuel choices s) ∧ (run fuel choices s).final = true :=
+  ⟨Steps.trans h (run_steps fuel choices s), run_final_of_inv fuel choices s (reachable_inv h) hf⟩
+
+/-- ★ `waits_report_in_order`: a parent that waits for distinct existing children one after the other
+    (`wait_for_subshell_to_finish(pid)` for each member of a pipeline, a subshell, a command substitution)
+    gets, when it is done and under every schedule, exactly one result per request, in the order of the
+    requests, each the awaited child's OWN final state (identity and true status) — never ECHILD, never
+    another child's state. -/
+theorem waits_report_in_order {spec : List (Nat × Result)} {ts : List Nat} {s : Sys}
+    (h : Reachable spec (waitReqs ts) s) (hnd : ts.Nodup) (hlt : ∀ t ∈ ts, t < spec.length)
+    (hfin : s.final = true) :
+    s.results.reverse = ts.map (expected (spec.map (·.2))) := by
+  have hF : fins (init spec (waitReqs ts)) = spec.map (·.2) := by
+    simp only [fins, init, List.map_map]
+    apply List.map_congr_left
+    intro p _; simp [PState.fin]
+  have ho := ord_steps h (inv_init' _ _) hF hnd (by intro x hx; simpa [init] using hlt x hx)
+    (ord_init spec ts)
+  obtain ⟨done, cur, rest, hts, htodo, hpc, hres, _⟩ := ho.ex
+  simp only [Sys.final, Bool.and_eq_true, beq_iff_eq, List.isEmpty_iff] at hfin
+  have hrest : rest = [] := by
+    rw [hfin.2] at htodo
+    cases rest with
+    | nil => rfl
+    | cons a b => simp [waitReqs] at htodo
+  have hcur : cur = [] := by
+    rcases hpc with ⟨hc, _⟩ | ⟨t, _, hp, _⟩
+    · exact hc
+    · rw [hfin.1] at hp; simp at hp
+  subst hrest; subst hcur
+  simp at hts; subst hts
+  exact hres
+
+example :
+    (run 40 [2, 0, 1, 1, 2] (init [(1, .exited 3), (0, .signaled 9), (2, .exited 0)] (waitReqs [0, 1, 2]))).results.reverse
+      = [.got 0 (.exited 3), .got 1 (.signaled 9), .got 2 (.exited 0)] := by
+  decide
+
+/-- ★ `pipeline_status_end_to_end`: what the DRIVER computes for the members of a pipeline (`nestedWait true`:
+    build the children, let the parent wait for each, run the model under the scheduler derived from the
+    case's schedule digits, read the statuses off the results) is the list of the members' true statuses —
+    for every list of statuses (up to 4000 members: the driver's fuel), every schedule digits, every salt;
+    so the status the driver reports for the pipeline is what the property says: the last member's, or with
+    `pipefail` the rightmost non-zero one. -/
+theorem pipeline_status_end_to_end (digits : List Nat) (salt : Nat) (sts : List Nat)
+    (hn : sts.length ≤ 4000) (pf : Bool) :
+    nestedWait true digits salt sts = sts ∧
+    pipeFold true pf (nestedWait true digits salt sts) = Spec.pipe pf sts := by
+  have key : nestedWait true digits salt sts = sts := by
+    unfold nestedWait
+    simp only [Bool.not_true, Bool.false_eq_true, if_false]
+    have hs0 : ({ children := mkChildren digits salt sts, todo := waitAll 0 sts.length } : Sys) =
+        init (specOf digits salt sts) (waitReqs (List.range sts.length)) := by
+      simp [init, mkChildren_eq, waitAll_eq]
+    rw [hs0]
+    have hreach0 : Reachable (specOf digits salt sts) (waitReqs (List.range sts.length))
+        (init (specOf digits salt sts) (waitReqs (List.range sts.length))) := .refl _
+    have hm : measure (init (specOf digits salt sts) (waitReqs (List.range sts.length))) ≤ 100000 := by
+      have h1 := childrenW_mkChildren digits salt sts
+      simp only [measure, init, ← mkChildren_eq, pcW, waitReqs, List.length_map, List.length_range]
+      simp
+      omega
+    obtain ⟨hr, hfin⟩ := run_final hreach0 100000 (mkChoices digits salt) hm
+    have hres := waits_report_in_order hr List.nodup_range
+      (by intro t ht; rw [specOf_length]; simpa using ht) hfin
+    rw [hres, hfin]
+    simp only [List.map_map, List.length_map, List.length_range, and_self, if_true]
+    have : (waitStatus ∘ expected ((specOf digits salt sts).map (·.2))) = fun t => sts.getD t 0 := by
+      funext t
+      simp only [Function.comp, expected, waitStatus, specOf_snd]
+      rcases Nat.lt_or_ge t sts.length with h | h
+      · simp [List.getD_eq_getElem?_getD, List.getElem?_map, List.getElem?_eq_getElem h, Result.status]
+      · simp [List.getD_eq_getElem?_getD, List.getElem?_eq_none (by simpa using h : (sts.map Result.exited).length ≤ t),
+          List.getElem?_eq_none h, Result.status]
+    rw [this]
+    exact range_map_getD sts 0
+  refine ⟨key, ?_⟩
+  rw [key]
+  simp only [pipeFold, if_true]
+  exact pipefail_rule pf sts
+
+example : nestedWait true [2, 1, 0, 2] 5 [3, 0, 7, 0] = [3, 0, 7, 0] ∧
+    pipeFold true true (nestedWait true [2, 1, 0, 2] 5 [3, 0, 7, 0]) = 7 := by
+  decide
+
+/-- ★ `wait_builtin_end_to_end`: what the DRIVER computes for `wait o1 … on` (`awaitJobsRun`, the executable
+    operand loop `St.awaitJobs` calls, every `wait_for_any_job_or_trap` being a `run` of the model under a
+    scheduler derived from the case's schedule digits), whenever it yields a value — in any reachable state
+    with the parent idle, for any job table of existing children, any operand list, any fuel and any choice
+    lists — is what the Spec says: one status per operand (the job's true status; 127 for a pid that is no
+    job any more, for an unknown pid and for an unknown job ID, in ANY position), the exit status is the last
+    of them (`Spec.waitOps`), every operand that names a job has been awaited and reaped, and the parent is
+    idle again.  (An executable loop that stopped at the first operand naming no job could not be shown to be
+    a derivation of `WaitOps`, nor to meet this statement.) -/
+theorem wait_builtin_end_to_end {spec : List (Nat × Result)} {reqs : List Req} {s : Sys}
+    (h : Reachable spec reqs s) (hidle : s.final = true)
+    (jobs : List Nat) (hjobs : ∀ x ∈ jobs, x < spec.length) (operands : List Operand)
+    (runFuel outer : Nat) (choices : Nat → List Nat) (last : Nat)
+    {jobs' : List Nat} {s' : Sys} {rs : List WaitRes}
+    (hrun : awaitJobsRun runFuel outer choices jobs s (operands.map (resolve jobs)) = some (jobs', s', rs)) :
+    let truth := fun i => ((spec[i]?).map (·.2.status)).getD 127
+    rs.map waitStatus = Spec.waitEach truth jobs (operands.map Operand.toSpec) ∧
+    ((rs.map waitStatus).getLast?).getD last = (Spec.waitOps truth jobs (operands.map Operand.toSpec) last).1 ∧
+    (∀ i : Nat, Operand.pid i ∈ operands → i ∈ jobs → reaped s'.children i = true) ∧
+    s'.final = true := by
+  intro truth
+  obtain ⟨_, hrs, hall, hfin⟩ :=
+    wait_operands_all_awaited h hidle jobs hjobs operands (awaitJobsRun_sound _ _ _ _ _ _ _ _ _ hrun)
+  refine ⟨hrs, ?_, hall, hfin⟩
+  rw [hrs, wait_status_is_last]
+
+/-- non-vacuity: `wait 7 $j $j` with job 0 (status 3) still running: 127, 3, 127; the exit status is the last -/
+example :
+    (awaitJobsRun 100 8 (fun _ => [1, 0, 1]) [0] (init [(1, .exited 3)] [])
+        ([Operand.pid 7, Operand.pid 0, Operand.pid 0].map (resolve [0]))).map
+      (fun r => r.2.2.map waitStatus) = some [127, 3, 127] := by
+  decide
 
 end YashModel.Proc
